@@ -364,6 +364,9 @@ class ErrorTask(Task):
         self.response_headers.extend(headers)
         self.set_close_on_finish()
         self.content_length = len(body)
+        if getattr(self.request, "command", None) == "HEAD":
+            # the response to HEAD carries the head only
+            body = b""
         self.write(body)
 
 
